@@ -116,6 +116,7 @@ class C01(Machine):
                   rng.random() < 0.8 else rng.choice(FIELDS),
                   'return_info': rng.random() < 0.6,
                   'always_return': rng.random() < 0.25,
+                  'via': rng.choice(['solve', 'solve', 'solve_source']),
                   'fseed': rng.randint(0, 10**6)}
             if faulty and rng.random() < 0.7:
                 k = rng.choice(['krylov', 'krylov', 'numeric', 'numeric',
@@ -132,6 +133,10 @@ class C01(Machine):
                         kinds += ['scale', 'scale']
                     op['numeric'] = {'at': rng.choice([1, 2, 3, 4, 6, 9, 14,
                                                        25]),
+                                     'where': rng.choice(['smoothing',
+                                                          'smoothing',
+                                                          'prolongation',
+                                                          'restriction']),
                                      'kind': rng.choice(kinds)}
                 else:
                     op['clock_jump'] = rng.choice([-3600.0, 1e6])
@@ -192,16 +197,17 @@ class C01(Machine):
         else:
             source = gen._mk_src(src['spec'])
             sf = emg3d.get_source_field(grid, source, freq)
-        return grid, model, sf
+            return grid, model, sf, source
+        return grid, model, sf, None
 
     # ---------------------------------------------------------------- run
     def run(self, ctx, case):
         cfg = case['config']
         ctx.max_ratio = 0.0
         with vclock.installed(ctx.clock, ctx.stats), quiet():
-            grid, model, sf = self._problem(cfg)
+            grid, model, sf, source = self._problem(cfg)
             st = {'prev': None, 'grid': grid, 'model': model, 'sf': sf,
-                  'cfg': cfg}
+                  'cfg': cfg, 'source': source}
             ctx.event('problem', {'shape': list(grid.shape_cells),
                                   'dtype': str(sf.field.dtype)})
             for i, op in enumerate(case['ops']):
@@ -289,37 +295,66 @@ class C01(Machine):
         # -- numeric break-down behind solver.smoothing
         num = op.get('numeric')
         if num:
-            real_smoothing = S.smoothing
             cnt = [0]
+            where = num.get('where', 'smoothing')
 
-            def smoothing(model, sfield, efield, nu, lr_dir):
-                real_smoothing(model, sfield, efield, nu, lr_dir)
+            def poison(field_obj):
                 cnt[0] += 1
                 if cnt[0] == num['at']:
-                    f = efield.field
+                    f = field_obj.field
                     if num['kind'] == 'scale':
                         f *= 1e3
                     else:
                         val = {'nan': np.nan, 'inf': np.inf,
                                'neginf': -np.inf}[num['kind']]
                         mask = oracle.interior_mask(
-                            efield.grid.shape_cells)
+                            field_obj.grid.shape_cells)
                         f[np.argmax(mask)] = val
-                    env['fired'].append('numeric/' + num['kind'])
-            saved['smoothing'] = real_smoothing
-            S.smoothing = smoothing
+                    env['fired'].append(f"numeric/{where}/{num['kind']}")
+            if where == 'smoothing':
+                real_smoothing = S.smoothing
+
+                def smoothing(model, sfield, efield, nu, lr_dir):
+                    real_smoothing(model, sfield, efield, nu, lr_dir)
+                    poison(efield)
+                saved['smoothing'] = real_smoothing
+                S.smoothing = smoothing
+            elif where == 'prolongation':
+                real_prol = S.prolongation
+
+                def prolongation(efield, cefield, sc_dir):
+                    real_prol(efield, cefield, sc_dir)
+                    poison(efield)
+                saved['prolongation'] = real_prol
+                S.prolongation = prolongation
+            else:
+                real_restr = S.restriction
+
+                def restriction(model, sfield, residual, sc_dir):
+                    out = real_restr(model, sfield, residual, sc_dir)
+                    poison(out[1])       # the coarse-grid source term
+                    return out
+                saved['restriction'] = real_restr
+                S.restriction = restriction
         # -- Krylov adversary
         kry = op.get('krylov')
         if kry:
             for name in ('bicgstab', 'cgs', 'gcrotmk'):
                 saved['ssl_' + name] = getattr(ssl, name)
                 setattr(ssl, name, _adversary(getattr(ssl, name), kry, env))
+        if op.get('via') == 'solve_source' and st.get('source') is not None:
+            def call():
+                return emg3d.solve_source(st['model'], st['source'],
+                                          cfg['freq'], **kw)
+        else:
+            def call():
+                return emg3d.solve(st['model'], st['sf'], **kw)
         try:
-            return _outcome(lambda: emg3d.solve(st['model'], st['sf'],
-                                                **kw)), env
+            return _outcome(call), env
         finally:
-            if 'smoothing' in saved:
-                S.smoothing = saved['smoothing']
+            for name in ('smoothing', 'prolongation', 'restriction'):
+                if name in saved:
+                    setattr(S, name, saved[name])
             for name in ('bicgstab', 'cgs', 'gcrotmk'):
                 if 'ssl_' + name in saved:
                     setattr(ssl, name, saved['ssl_' + name])
